@@ -23,9 +23,11 @@ func init() {
 		},
 		[]string{"isolation/visibility to other connections (engine semantics)", "behaviour on every reachable database state (the guards are checked, not executed)"}).
 		rule("R1R2-sql-spec", ruleSQLSpec(allKinds)).
+		rule("R12-store-result-union", ruleStoreResultUnion).
 		rule("M-DISPATCH", ruleDispatch).
 		rule("result-provenance", ruleResults(allKinds)).
 		rule("commit-before-ack", ruleExecute).
+		rule("store-open-options", ruleStoreOpenOptions).
 		rule("store-process", ruleStoreProcess).
 		rule("R3-sql-origin", ruleSQLOrigin).
 		rule("R3-error-discipline", ruleErrDiscipline(storePkgs...)).
@@ -39,10 +41,12 @@ func init() {
 			"both backends satisfy spec/sql.spec independently (R1/R2), so they agree with the statement of each guarantee and not merely with each other",
 		},
 		[]string{"engine semantics that differ under identical text (LIKE case sensitivity, JSON path syntax: finding F15)", "driver behaviour (lib/pq vs go-sqlite3)"}).
+		rule("R12-store-result-union", ruleStoreResultUnion).
 		rule("R4-backend-siblings", ruleSiblings).
 		rule("R1R2-sql-spec", ruleSQLSpec(allKinds)).
 		rule("M-DISPATCH", ruleDispatch).
 		rule("commit-before-ack", ruleExecute).
+		rule("store-open-options", ruleStoreOpenOptions).
 		rule("M-stmt-prepared", ruleStmtPrepared)
 }
 
@@ -62,7 +66,6 @@ var groupOwners = map[string][]string{
 	"CreatePromiseAndTask": {"createPromise"},
 	"UpdateSchedule":       {"bg:SchedulePromises"},
 }
-
 
 var promiseSchema = map[string][]string{"promises": {"id:text:unique", "state:int:default=1", "sort_id:int:auto", "timeout:int"}}
 var taskSchema = map[string][]string{"tasks": {"id:text:unique", "state:int:default=1", "counter:int:default=1", "attempt:int:default=0", "sort_id:int:auto"}}
@@ -91,6 +94,7 @@ func init() {
 			"all SQL is constant text run on the batch's transaction, no other package uses database/sql (R3)",
 		},
 		[]string{"that a guarded UPDATE/INSERT is atomic in the engine", "agreement of responses built from different reads (follows by induction from the above; argued in DESIGN.md, not machine-checked)", "crash points (C06)"}).
+		rule("R13-completion-state", ruleCompletionStateValidated).
 		rule("R1R2-sql-spec", ruleSQLSpec(kindsOf("promises"))).
 		rule("R1-table-writers", ruleTableWriters("promises", false)).
 		rule("schema", ruleSchema(promiseSchema)).
@@ -125,6 +129,7 @@ func init() {
 			"responses after a lazy time-out show the written completion half (CompletedOn = &written.CompletedOn); the only clock in coroutine code is c.Time() (R6 objects, R14)",
 		},
 		[]string{"tick placement and the three-way race (reduced to C01's write-once)", "a fresh create with a timeout already in the past answers 201 pending (see DESIGN.md §5 C04: read as outside the statement)"}).
+		rule("R13-completion-state", ruleCompletionStateValidated).
 		rule("R7-decision-tables", ruleTables(tblComplete, tblRead, tblCreate, tblTimedoutState)).
 		rule("R9-command-provenance", ruleCmdProvenance("UpdatePromiseCommand", "ReadPromisesCommand", "ReadPromiseCommand")).
 		rule("R1R2-sql-spec", ruleSQLSpec(kindList("ReadPromises", "UpdatePromise"))).
@@ -188,6 +193,8 @@ func init() {
 		rule("router-error-stops", ruleRouterErrorStops).
 		rule("R17-tick", ruleTick).
 		rule("sweep-answers", ruleSweepAnswers).
+		rule("record-loops", ruleRecordLoopsComplete).
+		rule("sweep-early-exit", ruleSweepEarlyExit).
 		rule("R1R2-sql-spec", ruleSQLSpec(kindList("CreatePromiseAndTask", "CreatePromise", "CreateTask", "ReadEnqueueableTasks", "CompleteTasks", "UpdateTask"))).
 		rule("R9-command-provenance", ruleCmdProvenance("CreateTaskCommand", "CreatePromiseAndTaskCommand", "UpdateTaskCommand", "CompleteTasksCommand", "ReadEnqueueableTasksCommand", "ReadPromiseCommand")).
 		rule("R6-object-provenance", ruleObjProvenance("Task", "SenderSubmission")).
@@ -250,6 +257,7 @@ func init() {
 		rule("R6-cas", ruleCAS("SearchPromises")).
 		rule("R6-response-shapes", ruleRespProvenance("SearchPromisesResponse", "SearchSchedulesResponse")).
 		rule("R9-cursor-carry", ruleCursorCarry).
+		rule("record-loops", ruleRecordLoopsComplete).
 		rule("R13-definitions", ruleSmallDefinitions).
 		rule("R13-outcome-maps", ruleOutcomeMaps).
 		rule("R16-swapped-arguments", ruleSwappedArguments)
@@ -262,7 +270,11 @@ func init() {
 			"HTTP code = status/100, an intended HTTP code for all 30 constants; each gRPC outcome flag compares the status of its own kind with the constant that denotes the flagged outcome and that the kind's coroutine can produce (R13)",
 			"for each request kind both front ends submit it, populate the same fields of the kernel request, and a coroutine is registered for it; every HTTP handler path writes exactly one reply (R10)",
 		},
-		[]string{"wire encoding by gin/grpc/protobuf", "correspondence of the *values* each protocol puts into a field beyond the field set (value-level round trip is C20)"}).
+		[]string{"wire encoding by gin/grpc/protobuf", "correspondence of the *values* each protocol puts into a field beyond the field set and the identically named source (name agreement R16: a field fed, on any path, from a differently named field of the client message is reported; a request field that holds what the client sent is not assigned again (client-fields); defaults computed from constants for fields the client did not send are not compared between the protocols)"}).
+		rule("R13-completion-state", ruleCompletionStateValidated).
+		rule("R16-name-agreement", ruleNameAgreement).
+		rule("R16-client-fields", ruleClientFieldsNotRewritten).
+		rule("R16-keyed-subobjects", ruleKeyedSubobjects).
 		rule("R11-exhaustive", ruleExhaustive(nil)).
 		rule("R13-grpc-flags", ruleGrpcFlags).
 		rule("R13-http-code", ruleHttpCode).
@@ -272,9 +284,13 @@ func init() {
 		rule("R10-http-reply-once", ruleHttpReplyOnce).
 		rule("R6-response-shapes", ruleRespProvenance(allRespTypes...)).
 		rule("R12-union-literals", ruleUnionLiterals).
-		rule("R7-decision-tables", ruleTables(tblReadSchedule, tblHeartbeatLocks, tblHeartbeatTasks, tblSearchSchedules, tblAcquire, tblRelease, tblDeleteSchedule)).
+		rule("R3-errors-examined", ruleErrorsExamined(pkgHttp, pkgGrpc, pkgSubApi, pkgTApi, pkgPromise, pkgSchedule, pkgTask, pkgUtil)).
+		rule("R12-request-union", ruleRequestUnionAccess).
+		rule("R12-store-result-union", ruleStoreResultUnion).
+		rule("R7-decision-tables", ruleTables(tblReadSchedule, tblHeartbeatLocks, tblHeartbeatTasks, tblSearchSchedules, tblAcquire, tblRelease, tblDeleteSchedule, tblApiProcess)).
 		rule("R16-converter-complete", ruleConverterCompleteness).
 		rule("R16-zero-value-locals", ruleZeroValueLocals).
+		rule("R16-shadowed-state", ruleNoShadowedState).
 		rule("R13-definitions", ruleSmallDefinitions).
 		rule("R13-outcome-maps", ruleOutcomeMaps).
 		rule("R16-swapped-arguments", ruleSwappedArguments)
@@ -304,12 +320,14 @@ func init() {
 	regProp("C06",
 		[]string{
 			"commit-before-acknowledge: in both backends every success return of Execute is dominated by a successful tx.Commit(), every error return by Rollback / failed Begin / failed Commit; store.Process builds completions only after Execute returned and attaches results only when err == nil; the store workers enqueue completions only from Process's return (must-pass-through on go/cfg)",
+			"the SQLite database is opened with the configured path and no option outside an allow-list that cannot weaken durability (journal on disk, synchronous FULL/EXTRA); no durability-weakening PRAGMA / SET statement is executed (store-open-options)",
 			"one SQL transaction per Execute: every statement of every handler runs on the tx (or a statement prepared from it) (R3)",
 			"one Transaction per multi-effect operation: the completion group, routed create = the single CreatePromiseAndTask command, schedule firing = creation + advance in one command list (R5)",
 			"defaults and shutdown: Config.Reset defaults to false and Reset()/os.Remove/DROP TABLE are reachable only from Stop under `if config.Reset`; the sqlite path defaults to a file; schema statements are IF NOT EXISTS; serve stops the API and then the AIO only after Loop returned; coroutine code keeps no package-level state and each background coroutine starts from a store read (R17)",
 		},
 		[]string{"SQLite's/Postgres' own durability settings, the filesystem, kill points inside the driver", "repeated crashes during recovery; no process is started or killed"}).
 		rule("commit-before-ack", ruleExecute).
+		rule("store-open-options", ruleStoreOpenOptions).
 		rule("store-process", ruleStoreProcess).
 		rule("R3-sql-origin", ruleSQLOrigin).
 		rule("R3-error-discipline", ruleErrDiscipline(storePkgs...)).
@@ -330,11 +348,14 @@ func init() {
 			"each sweep reads a LIMITed batch bound to its configured batch size with exactly the overdue predicate, and each selected record is answered by a command that removes it from that predicate (R1/R2, R9 templates)",
 			"a selected record is skipped only for internal reasons (decoding server-written bytes, a cron expression both front ends validated); a skip on client-controlled data is reported (finding F17)",
 			"every dispatched submission is completed exactly once, also in the simulated AIO, so awaiting coroutines resume (R10)",
+			"a loop over the selected records (or over the hand-offs made for them) is never left early (no break / goto / labelled branch), and a sweep returns before or between its loops only after a failed read or an empty selection",
 		},
 		[]string{"the number of cycles (no bound is computed)", "fairness between the five coroutines", "transient-failure sequences"}).
 		rule("R17-tick", ruleTick).
 		rule("R17-background", ruleBackground(true)).
 		rule("sweep-answers", ruleSweepAnswers).
+		rule("record-loops", ruleRecordLoopsComplete).
+		rule("sweep-early-exit", ruleSweepEarlyExit).
 		rule("R10-exactly-once", ruleExactlyOnce).
 		rule("R1R2-sql-spec", ruleSQLSpec(kindList("ReadPromises", "ReadSchedules", "ReadTasks", "ReadEnqueueableTasks", "TimeoutLocks", "UpdatePromise", "UpdateSchedule", "UpdateTask"))).
 		rule("R9-command-provenance", ruleCmdProvenance("ReadPromisesCommand", "ReadSchedulesCommand", "ReadTasksCommand", "ReadEnqueueableTasksCommand", "TimeoutLocksCommand", "UpdatePromiseCommand", "UpdateScheduleCommand", "UpdateTaskCommand")).
@@ -371,7 +392,8 @@ func init() {
 		[]string{
 			"every switch over a closed kernel enum whose default panics is exhaustive (R11)",
 			"decode-nil: a pointer filled by a JSON decoder from stored client bytes (routing tag, receiver, plugin data) is nil-tested before its first dereference and is not the subject of an assertion (JSON `null` ⇒ nil with err == nil)",
-			"union-access: a member of the store Result union is read only where the submission's command list makes it the one that is set, or under a Kind test",
+			"union-access: a member of the store Result union is read only where the submission's command list makes it the one that is set, or under a Kind test; a member of the Request union is selected only by the coroutine registered for exactly that kind (or under a test of the request's Kind); every union literal — also those written with an elided type inside a slice literal — sets the member named after its Kind",
+			"a value (pointer, slice, flag or number) obtained together with an error is dereferenced / read only where that error was found nil (err-dominates-use)",
 			"must-helpers: no Must-style helper is applied to run-time data",
 			"request-asserts: every util.Assert over request fields in a request coroutine is implied by what each front end (and the shared search helper, including its cursor path) validates before submitting",
 			"all SQL text is constant (no injection); every submit-able kind is registered; cursors are decoded only with signature verification",
@@ -390,6 +412,9 @@ func init() {
 		rule("R3-sql-origin", ruleSQLOrigin).
 		rule("R12-row-count-asserts", ruleSQLRowCounts).
 		rule("R12-union-literals", ruleUnionLiterals).
+		rule("R3-errors-examined", ruleErrorsExamined(pkgHttp, pkgGrpc, pkgSubApi, pkgTApi, pkgPromise, pkgSchedule, pkgTask, pkgUtil)).
+		rule("R12-request-union", ruleRequestUnionAccess).
+		rule("R12-store-result-union", ruleStoreResultUnion).
 		rule("R12-err-dominates-use", ruleErrDominatesUse).
 		rule("R12-records-index", ruleRecordsIndex).
 		rule("R12-nil-and-deref", ruleNilAndDeref).
@@ -408,11 +433,16 @@ func init() {
 			"close-then-unregister: every close of a listener's channel is followed by its removal from the registry (or happens before it was ever added), so no registered connection is ever closed — the necessary condition for never sending on a closed channel",
 			"lookup: only the addressed group is searched; an empty group is `not found`; a listener with the addressed id is preferred; a notification goes only to the exact id (R7)",
 			"Done is called exactly once per message and Done(true) only in the select arm whose non-blocking send was taken (R10); a null receiver payload is rejected instead of dereferenced (R12)",
+			"bookkeeping: what arrives on `connect` is registered and what arrives on `disconnect` is removed with the channel match (the handler's Connect / Disconnect send on the channel of their name); the registry map is indexed only by the group; the count is incremented with the one append and decremented with every close, the limit is only read, and add refuses exactly when len >= max; ServeHTTP ends the request when the registration is refused; Stop closes the queue and both channels",
 		},
 		[]string{"timing of sends against connection churn, buffer occupancy", "net/http's handling of the stream"}).
 		rule("R14-poll-confinement", rulePollConfinement).
 		rule("R7-poll-lookup", rulePollLookup).
 		rule("R7-poll-replace", rulePollReplace).
+		rule("R7-poll-channels", rulePollChannels).
+		rule("R7-poll-registry", rulePollRegistry).
+		rule("R7-poll-refusal", rulePollRefusal).
+		rule("R17-lifecycle-calls", ruleLifecycleCalls).
 		rule("R10-poll-done", func(c *Ctx) { n := 0; c.pollDoneOnce(&n) }).
 		rule("R12-decode-nil", ruleDecodeNil).
 		rule("R16-swapped-arguments", ruleSwappedArguments)
@@ -422,7 +452,7 @@ func init() {
 			"TagSource decides exactly: tag absent ⇒ no match; valid JSON decoding strictly into a receiver with a type ⇒ physical; other JSON ⇒ no match; anything else ⇒ logical string (R7 by path enumeration); first matching source wins; coerce accepts a physical receiver or a string",
 			"sender: logical name ⇒ configured target, else by URL scheme (http/https ⇒ http transport with that URL, poll://group/id ⇒ poll transport), physical as given; unresolvable receiver or missing plugin ⇒ error completion; plugin chosen by receiver type; message = (type, receiver data, body)",
 			"body keys type/task/href{claim,complete,heartbeat} or type/promise from this submission; hrefs formatted from exactly the task id and counter; the task created for a routed promise carries the router's receiver (R9/objects)",
-			"both decoders reject null instead of dereferencing nil (R12)",
+			"both decoders reject null instead of dereferencing nil (R12); every decode of receiver data, routing tags, request bodies and stored columns targets storage that is fresh for that message (zero-valued local of the invocation or a target handed in by the caller), so nothing of the previous message's address or headers is merged into this one (decode-fresh)",
 		},
 		[]string{"the plugins' network behaviour", "url.Parse's treatment of odd URLs"}).
 		rule("R7-decision-tables", ruleTables(tblTagSource, tblSchemeToRecv)).
@@ -436,6 +466,7 @@ func init() {
 		rule("R10-cqe-well-formed", ruleCQEWellFormed).
 		rule("R7-http-plugin-outcome", ruleHttpPluginOutcome).
 		rule("R7-sender-process", ruleTables(tblSenderProcess)).
+		rule("R16-decode-fresh", ruleDecodeFresh).
 		rule("R16-swapped-arguments", ruleSwappedArguments)
 }
 
@@ -446,9 +477,15 @@ func init() {
 			"name agreement (R16): in both front ends and in the record decoders every field of a request / API object / protobuf message is fed from the identically named station (or a listed alias)",
 			"command literals copy request fields unaltered (R9); responses and dispatched messages carry the stored record unaltered (objects)",
 			"no normalising or escaping function lies on an id or payload path (allowed sites are listed with their reason); html/template is not used; the wildcard-route id loses exactly its leading slash; derived ids embed the client id raw; time-valued fields are int64 at every station (R15/R16)",
+			"a client datum is replaced by an empty map / slice only under a nil / empty test of that same datum (zero-defaults); every decode targets storage fresh for the message (decode-fresh); no column carries a case-folding / trimming collation",
 		},
 		[]string{"byte-level behaviour of drivers and codecs (database/sql, encoding/json base64, protobuf)", "LIKE/JSON-path semantics of search (finding F15)"}).
 		rule("R16-name-agreement", ruleNameAgreement).
+		rule("R16-decode-fresh", ruleDecodeFresh).
+		rule("R3-errors-examined", ruleErrorsExamined(pkgHttp, pkgGrpc, pkgSubApi, pkgTApi, pkgPromise, pkgSchedule, pkgTask, pkgUtil)).
+		rule("R16-zero-defaults", ruleDefaultsOnlyForZero).
+		rule("R16-client-fields", ruleClientFieldsNotRewritten).
+		rule("R16-keyed-subobjects", ruleKeyedSubobjects).
 		rule("R15-no-normalisers", ruleNoNormalisers).
 		rule("R16-widths", ruleTimeoutWidth).
 		rule("R16-codecs", ruleCodecPairs).
@@ -458,5 +495,6 @@ func init() {
 		rule("R6-object-provenance", ruleObjProvenance(objAll...)).
 		rule("R16-converter-complete", ruleConverterCompleteness).
 		rule("R16-zero-value-locals", ruleZeroValueLocals).
+		rule("R16-shadowed-state", ruleNoShadowedState).
 		rule("R16-swapped-arguments", ruleSwappedArguments)
 }
